@@ -988,7 +988,7 @@ struct elements_range_t {
 
 	auto operator=(elements_range_t const&) -> elements_range_t& = delete;
 
-	auto operator=(elements_range_t     && other) noexcept -> elements_range_t& {  // cannot be =delete in NVCC?
+	auto operator=(elements_range_t     && other) noexcept(std::is_nothrow_copy_assignable_v<value_type> && std::is_nothrow_move_assignable_v<value_type>) -> elements_range_t& {  // cannot be =delete in NVCC?
 		if(! is_empty()) {adl_copy(other.begin(), other.end(), this->begin());}
 		return *this;
 	}
@@ -2166,7 +2166,7 @@ class subarray : public const_subarray<T, D, ElementPtr, Layout> {
 		this->elements() = other.elements();
 		return *this;
 	}
-	constexpr auto operator=(subarray&& other) & noexcept -> subarray& {  // TODO(correaa) make conditionally noexcept
+	constexpr auto operator=(subarray&& other) & noexcept(std::is_nothrow_copy_assignable_v<T> && std::is_nothrow_move_assignable_v<T>) -> subarray& {
 		// if(this == std::addressof(other)) { return *this; }
 		BOOST_MULTI_ASSERT((this->extensions() == other.extensions()) || (this->num_elements() == 0 && other.num_elements() == 0));
 		this->elements() = std::move(other).elements();
